@@ -185,24 +185,30 @@ Inductive disposition := Proved (lemma : string) | Argued (reason : string).
 
 Local Open Scope string_scope.
 
-(** (file, function, sha256-prefix of the normalised [for ... range] statement, disposition) *)
-Definition site_table : list (string * string * string * disposition) := [
-  ("adapter/gov/adapter.go", "NewHookAdapter", "abe7dbd2d6c78573", Proved "handler_loop_perm");
-  ("adapter/staking/adapter.go", "NewHookAdapter", "d55918f439e7900a", Proved "handler_loop_perm");
-  ("app/app.go", "(*Teleport).BlockedAddrs", "47b8a240e28de7b6", Proved "insert_loop_perm");
-  ("app/app.go", "(*Teleport).ModuleAccountAddrs", "8b8d88fae09df518", Proved "insert_loop_const_perm");
-  ("app/app.go", "GetMaccPerms", "c000710fa0950b50", Proved "copy_loop_perm");
-  ("app/app.go", "GetStoreKeys", "b85e3f538d622cf5", Proved "copy_loop_perm");
-  ("x/xibc/clients/light-clients/bsc/types/header.go", "verifySeal", "9178e3619a9a33bf", Proved "recents_loop_perm");
-  ("x/xibc/clients/light-clients/bsc/types/snapshot.go", "(*snapshot).validators", "6a066d0ac90ca0cd", Proved "validators_loop_perm");
+(** (file, function, sha256-prefix of the normalised [for ... range] statement, sha256-prefix of the normalised enclosing
+    function declaration, disposition).  The function hash is part of the key because what happens to the loop's result
+    afterwards belongs to the obligation (validators(): the SORT after the loop is what makes the slice order independent). *)
+Definition site_table : list (string * string * string * string * disposition) := [
+  ("adapter/gov/adapter.go", "NewHookAdapter", "abe7dbd2d6c78573", "0c03d1933616a7f1", Proved "handler_loop_perm");
+  ("adapter/staking/adapter.go", "NewHookAdapter", "d55918f439e7900a", "1ea49b5cef02a55c", Proved "handler_loop_perm");
+  ("app/app.go", "(*Teleport).BlockedAddrs", "47b8a240e28de7b6", "1923d4adb8ecb2dd", Proved "insert_loop_perm");
+  ("app/app.go", "(*Teleport).ModuleAccountAddrs", "8b8d88fae09df518", "908ad5c64d780d61", Proved "insert_loop_const_perm");
+  ("app/app.go", "GetMaccPerms", "c000710fa0950b50", "65321bf763126ecf", Proved "copy_loop_perm");
+  ("app/app.go", "GetStoreKeys", "b85e3f538d622cf5", "04ff6b29cdf3cd5c", Proved "copy_loop_perm");
+  ("x/xibc/clients/light-clients/bsc/types/header.go", "verifySeal", "9178e3619a9a33bf", "5b87e3f6dc2de05f", Proved "recents_loop_perm");
+  ("x/xibc/clients/light-clients/bsc/types/snapshot.go", "(*snapshot).validators", "6a066d0ac90ca0cd", "5389bb7093870470", Proved "validators_loop_perm");
   (* ethash remote-sealer goroutine (mining work distribution).  Started by New() -> startRemoteSealer and stopped by
      Close(); its maps (works, rates) are filled only by the RPC channels submitWorkCh / submitRateCh, which nothing
      in teleport writes to; VerifySeal reads none of its state.  [total += rate.rate] is a FLOAT sum and is
      order-dependent: it feeds fetchRateCh (Hashrate()) only. *)
-  ("x/xibc/clients/light-clients/eth/types/sealer.go", "(*remoteSealer).loop", "6a4b56cc9067b274",
+  ("x/xibc/clients/light-clients/eth/types/sealer.go", "(*remoteSealer).loop", "6a4b56cc9067b274", "2611971c6e905a0c",
      Argued "float sum of reported hash rates, order-dependent; reaches only Ethash.Hashrate() (mining statistics); the rates map is filled through submitRateCh (RPC), never by the state machine");
-  ("x/xibc/clients/light-clients/eth/types/sealer.go", "(*remoteSealer).loop", "04c174fb6bf56429",
+  ("x/xibc/clients/light-clients/eth/types/sealer.go", "(*remoteSealer).loop", "04c174fb6bf56429", "2611971c6e905a0c",
      Argued "deletes stale mining work packages from remoteSealer.works; filled through workCh (Seal), never by header verification");
-  ("x/xibc/clients/light-clients/eth/types/sealer.go", "(*remoteSealer).loop", "0dcd198901d8f37f",
+  ("x/xibc/clients/light-clients/eth/types/sealer.go", "(*remoteSealer).loop", "0dcd198901d8f37f", "2611971c6e905a0c",
      Argued "drops hash-rate reports older than 10 s (time.Since) from remoteSealer.rates; mining statistics only")
 ].
+
+(** the lemma names the table relies on (checked against the certificates in [Proofs/MapLoopsTable.v]) *)
+Definition lemmas_used : list string :=
+  flat_map (fun t => match t with (_, _, _, _, Proved n) => [n] | _ => [] end) site_table.
